@@ -9,7 +9,7 @@ W=$(mktemp -d /tmp/trymut_XXXX); rmdir $W; B=$W.build
 git -C /repo worktree add -f $W HEAD >/dev/null 2>&1 || { echo "worktree failed"; exit 9; }
 trap 'git -C /repo worktree remove --force $W >/dev/null 2>&1; rm -rf $B' EXIT
 (cd $W && git apply "$P") || { echo "APPLY-FAILED $P"; exit 8; }
-OUT=$(cd $V && VERIF_REPO=$W VERIF_BUILD=$B timeout 3000 ./run_check.sh $ID $TIER 2>&1); RC=$?
+OUT=$(cd $V && VERIF_OUT=$B VERIF_REPO=$W VERIF_BUILD=$B timeout 3000 ./run_check.sh $ID $TIER 2>&1); RC=$?
 NV=$(echo "$OUT" | grep -c '^VIOLATION')
 echo "[$ID $(basename $P)] rc=$RC violations=$NV causes: $(echo "$OUT" | grep 'cause=' | sed 's/^ *cause=//' | cut -d' ' -f1 | sort | uniq -c | tr '\n' ' ')"
 echo "$OUT" | grep -m1 'cause=' | cut -c1-260
